@@ -24,6 +24,7 @@ func main() {
 			boundaryCases(w, tier, seed)
 			coLimits(w, tier, seed)
 			apiResume(w, tier, seed)
+			histLimits(w, tier, seed)
 		},
 	})
 }
